@@ -91,6 +91,15 @@ def gen_model(rng, i, route=None):
           for k in range(len(ent) - 1):
             ent[k] = ren.get(ent[k], ent[k])
       m["species"] = {ren.get(k, k): v for k, v in (m.get("species") or {}).items() if rng.random() < 0.6}
+  # models of one pool also share the LABELS of their custom forms and table forms (with different
+  # formulas / data): anything cached per label inside the process would leak from one model to the next
+  mapping = {}
+  for k, f in enumerate(m.get("forms") or []):
+    mapping[f["name"]] = "form%d" % k
+  for k, t in enumerate(m.get("tables") or []):
+    mapping[t["name"]] = "tab%d" % k
+  if mapping:
+    m = spec.rename_symbols(m, mapping)
   return {"model": m, "route": route}
 
 
